@@ -46,6 +46,8 @@ type Scenario struct {
 	// Extra goroutines started once the index is armed (copiers etc.). They must
 	// bracket their calls with Gate.ActorCalling / ActorReturned.
 	Extra []func(r *Runner)
+	// Handlers are extra hook handlers (assertions, recorders) installed before the gate handler.
+	Handlers []mon.Handler
 	// AfterOpen is called once the controlled part is over and the gates are
 	// open (the observer is not called any more); e.g. to end the Extra goroutines.
 	AfterOpen func(r *Runner)
@@ -93,6 +95,9 @@ func Run(sc *Scenario, obs Observer, final func(r *Runner)) (*Result, error) {
 		gates = DefaultGates
 	}
 	gate := mon.NewGate(gates...)
+	for _, h := range sc.Handlers {
+		d.Add(h)
+	}
 	d.Add(gate.Handler())
 	_ = os.RemoveAll(sc.Dir)
 	kv := map[string]any{}
